@@ -425,6 +425,9 @@ Proof.
   - rewrite wcount_nil. destruct ((db2 =? db) && beq k2 k); reflexivity.
   - rewrite wcount_cons, wcount_nil, wmatch_sym. cbn [u_db u_key]. destruct ((db2 =? db) && beq k2 k); reflexivity.
 Qed.
+(** the AOF record of a served pop (293eff6) does not touch the lists *)
+Lemma STRW_log_pop s r W dbi lf k : STRW s r W -> STRW (log_pop s dbi lf k) r W.
+Proof. intros H db kk Hd Hq. specialize (H db kk Hd Hq). rewrite !list_at_lst in *. rewrite get_db_log_pop. exact H. Qed.
 Lemma wake_client_str now s b u W ex :
   agreeW b (u :: W) -> cinv s -> BR b -> STRW s (b_reg b) (u :: W) ->
   b_wake (snd (wake_client now s b u)) = b_wake b ++ ex ->
@@ -452,13 +455,13 @@ Proof.
       destruct Hkey as [Hk|Hk]; [lia|]. rewrite Hk. pose proof (wcount_nonneg (u_db u) (u_key u) W). cbn. lia. }
     destruct r; try contradiction; cbn [fst snd].
     + intros E. cbn [unblock emit with_blk b_wake] in E. apply app_self_nil in E. subst ex. rewrite app_nil_r.
-      cbn [unblock emit with_blk b_reg]. apply Fin.
+      cbn [unblock emit with_blk b_reg]. apply STRW_log_pop, Fin.
       * intros k'. specialize (P3 k' None). rewrite !occm_none in P3. pose proof (ecount_nonneg (u_db u, k', None) [(u_db u, u_key u, b0)]). lia.
       * left. specialize (P3 (u_key u) None). rewrite !occm_none, ecount_cons, ecount_nil, elem_eqb_spec, Z.eqb_refl, beq_refl in P3. cbn [mbeq andb] in P3. lia.
     + destruct (recheck (bl_left st) d' (bl_keys st)) as [[[k v]|] d''] eqn:Er; cbn [fst snd]; intros E.
       * cbn [unblock emit with_blk b_wake] in E. apply app_self_nil in E. subst ex. rewrite app_nil_r.
         destruct (recheck_delta (bl_left st) (u_db u) _ _ _ _ P1 Er) as (Q1 & Q3).
-        cbn [unblock emit with_blk b_reg]. apply Fin.
+        cbn [unblock emit with_blk b_reg]. apply STRW_log_pop, Fin.
         -- intros k'. specialize (Q3 k' None). rewrite !occm_none in Q3. pose proof (ecount_nonneg (u_db u, k', None) [(u_db u, k, v)]).
            rewrite <- (Hsame I k'). lia.
         -- right. apply len_zero_nil. specialize (Q3 (u_key u) None). rewrite !occm_none in Q3.
